@@ -25,6 +25,7 @@ use std::sync::atomic::{AtomicU64, Ordering};
 use std::sync::Arc;
 
 thread_local! {
+    static TRACE_PROGRESS: std::cell::Cell<bool> = const { std::cell::Cell::new(false) };
     static MODEL_OFF: std::cell::Cell<bool> = const { std::cell::Cell::new(false) };
     static IS_VARIANT: std::cell::Cell<bool> = const { std::cell::Cell::new(false) };
     static PROGRESS: RefCell<Option<Arc<AtomicU64>>> = const { RefCell::new(None) };
@@ -38,6 +39,13 @@ pub const PHASE_MODEL: u64 = 5;
 
 /// Publish where the simulated process is (read by the watchdog on a hang).
 fn progress(step: usize, phase: u64, clean: bool, variant: bool) {
+    if TRACE_PROGRESS.with(|t| t.get()) {
+        // crash probe: the last line on stderr tells where the process died
+        let line = format!("PROGRESS {step} {phase} {} {}\n", clean as u8, variant as u8);
+        unsafe {
+            libc::write(2, line.as_ptr() as *const libc::c_void, line.len());
+        }
+    }
     PROGRESS.with(|p| {
         if let Some(a) = p.borrow().as_ref() {
             let v = ((step as u64) << 16) | (phase << 8) | ((clean as u64) << 1) | (variant as u64);
@@ -358,6 +366,7 @@ struct Session<'d> {
     /// space may hold unbroken cycles, on which rendering and has_impl do not
     /// terminate; only ids promised before the fault are looked at from here on
     tainted: bool,
+    conflicted: BTreeSet<String>,
     model_off: bool,
     last_titled_root: Option<Value>,
     latest_delivery: BTreeMap<usize, CallResult>,
@@ -394,6 +403,7 @@ impl<'d> Session<'d> {
             only_model_acyclic: true,
             extra_schemas: Vec::new(),
             tainted: false,
+            conflicted: BTreeSet::new(),
             model_off: false,
             last_titled_root: None,
             latest_delivery: BTreeMap::new(),
@@ -1136,6 +1146,14 @@ fn run_ops_inner(settings: &SettingsDesc, ops: &[Op], faults_mode: bool, attribu
                     s.out.clean = false;
                     // the failed call may have registered some definitions; the model
                     // promises nothing about them
+                    // names the failed call tried to RE-define differently: typify has
+                    // re-pointed their reference at an id that may never be filled in
+                    // (documented weird state); they are excluded from post-fault demands
+                    for (n, sch) in Session::op_defs(&src) {
+                        if s.defs.get(&n).map(|old| old != &sch).unwrap_or(false) {
+                            s.conflicted.insert(n);
+                        }
+                    }
                     if model::has_cycle(&model::by_value_graph(&defs_after)) {
                         s.tainted = true;
                         s.out.probe("post_fault.tainted_by_cyclic_batch");
@@ -1303,6 +1321,10 @@ fn run_ops_inner(settings: &SettingsDesc, ops: &[Op], faults_mode: bool, attribu
                 if res.is_ok() && !was_clean && !s.tainted && !poisoned_op {
                     let names: Vec<String> = Session::op_defs(&src).into_iter().map(|d| d.0).collect();
                     for n in names {
+                        if s.conflicted.contains(&n) {
+                            s.out.probe("post_fault.delivered_definition_was_conflictingly_redefined");
+                            continue;
+                        }
                         s.at(step, PHASE_INSPECT);
                         let problem = match s.lookup_def_id(&n) {
                             Err(e) => Some(format!("add_type($ref {n}) -> {e}")),
@@ -1541,6 +1563,7 @@ fn execute_with_progress(desc: &RunDesc, cell: Option<Arc<AtomicU64>>) -> Outcom
     let model_off = desc.model_off;
     let base = hashseed::run_simulated_process(desc.hash_key, desc.decoy, move || {
         MODEL_OFF.with(|v| v.set(model_off));
+        TRACE_PROGRESS.with(|t| t.set(std::env::var("VERIF_TRACE_PROGRESS").is_ok()));
         PROGRESS.with(|p| *p.borrow_mut() = c);
         run_ops(&settings, &ops, faults)
     });
@@ -1559,6 +1582,7 @@ fn execute_with_progress(desc: &RunDesc, cell: Option<Arc<AtomicU64>>) -> Outcom
         let c = cell.clone();
         let var = hashseed::run_simulated_process(v.hash_key, v.decoy, move || {
             MODEL_OFF.with(|v| v.set(model_off));
+            TRACE_PROGRESS.with(|t| t.set(std::env::var("VERIF_TRACE_PROGRESS").is_ok()));
             PROGRESS.with(|p| *p.borrow_mut() = c);
             run_ops_variant(&settings, &ops, faults)
         });
